@@ -40,6 +40,14 @@ pub mod upstream {
         fn describe(&self) -> String {
             format!("{}/{}/{}/{}", Self::CHUNK, Self::PAD, Self::LIMIT, self.tag())
         }
+        /// provided methods that return `()`: in the mirror declaration their bodies are the placeholder `{}`
+        fn flush(&mut self) {
+            let _ = self.put(&[]);
+            let _ = self.tag();
+        }
+        fn touch(&self) {
+            let _ = self.tag();
+        }
         fn finish(mut self, last: &[u8]) -> String
         where
             Self: Sized,
@@ -61,6 +69,8 @@ pub trait Chunked {
     fn tag(&self) -> u8;
     fn put_all(&mut self, data: &[u8]) -> Vec<usize> {}
     fn describe(&self) -> String {}
+    fn flush(&mut self) {}
+    fn touch(&self) {}
     fn finish(self, last: &[u8]) -> String
     where
         Self: Sized,
@@ -151,6 +161,14 @@ fn drive<T: upstream::Chunked + Hooks + Unpin>(mut t: T, ops: &[String], side: &
             "all" => format!("{:?}", t.put_all(&hex(arg))),
             "put" => format!("{}", t.put(&hex(arg))),
             "desc" => t.describe(),
+            "flush" => {
+                t.flush();
+                "flushed".to_string()
+            }
+            "touch" => {
+                t.touch();
+                "touched".to_string()
+            }
             "hooks" => {
                 // unmocked no-op hooks (empty default bodies) through every borrowed receiver kind: nothing happens
                 Hooks::before(&mut t);
